@@ -2690,7 +2690,7 @@ func init() {
 					"over 1-3 channel shapes (element type x capacity 0/1/2/4) per program, closed channels dropped at once or kept in a list until the end of the round, the host's garbage collector run by the script through the host function gc() after every round / every 4th round / between the calls / never (then the run is 5000-10000 cycles long and the collector runs on its own), in one call or spread over 2-5 vm.Execute / vm.ExecuteContext calls on one environment with the functions defined by a library call (optionally under a context released when it has returned); every message carries a running number and must arrive exactly once, in order, converted to the element type of its channel; an operation of a cycle that fails is reported with oops(step, error) (signature fresh-chan:<step>-failed, judged before its consequences); on every P-th cycle (P in 3/7/16/50) the channel just closed must refuse a send and a second close with an error and yield nil to a receive expression, and the number of such errors is compared at the end. " +
 					"phase gofunc (c16_r7.go), run in a CHILD process per program so that the death of the hosting process is an observation: 2-5 handlers started with go (or, one program in four, one of them called by the main goroutine inside try) whose callee is a Go func value wrapping a script function - func-typed field of a host struct (func(), func(int64), func(int64,string), func(...int64) plain and spread, func(interface{},interface{}), func(int64) int64), element of []Handler1 / map[string]Handler1 (index and member) / chan Handler1 / *Handler1 / script-made struct field / []HandlerN (named func type), returned by a host function (identity, Go closure around it), argument of a Go function that is the callee itself (call1(f, k), callv(f, k, 7)), called synchronously inside a go-started plain function - or a plain named / anonymous script function; " +
 					"healthy handlers are the producers of a fan-in (they report their arguments: the values at the go statement), faulty ones send on a closed channel / close a closed channel (given, closed by themselves just before, in the body of a for-in over a channel), bare or inside try (a few throw / call an undefined function / index out of range: for those only the survival of the host and the healthy traffic are judged); the statement after the failing one must not run, the try must catch it, the fan-in delivers everything, a call on the environment after all goroutines have ended works, and the child process is alive (its death = violation host-died:goroutine-of:<entry point>:panic-in:<innermost anko frame>). " +
-					"An evaluation = one run of one program; non-trivial when messages were delivered or closed-channel observations were made; distinct = distinct program source." + c16R8Rule,
+					"An evaluation = one run of one program; non-trivial when messages were delivered or closed-channel observations were made; distinct = distinct program source." + c16R8Rule + c16R9Rule,
 				Assumptions: []string{
 					"script goroutines communicate only through channels and locking host functions (no unsynchronised shared containers)",
 					"failing operations (send on closed, double close) are issued on the main script goroutine in the pipeline / semantics / stepped / churn phases; in phase gofunc they are issued inside functions started with go as well: such an error has no receiver, so what is judged there is what the statement says of it - it is an error (the rest of the function is not executed, a try inside the function catches it) and never a crash (the hosting process survives, the other goroutines and later calls are unaffected)",
@@ -2705,7 +2705,7 @@ func init() {
 					"named element types are bound by the host with DefineType and values of them are made by host functions; the channels themselves are always made by the script (channels made by the host, e.g. send-only ones, are outside the statement)",
 					"pending repairs of /repo (constants c16PendingFix_*): for-in whose operand is a typed slot that the body reassigns, and pointer messages received by for-in, are generated but kept out of the table",
 					"deadlock is decided from goroutine states only (all interpreter goroutines parked in channel operations in two identical samples); timers pace the sampler and never decide",
-					c16R8Assumptions[0], c16R8Assumptions[1], c16R8Assumptions[2],
+					c16R8Assumptions[0], c16R8Assumptions[1], c16R8Assumptions[2], c16R9Assumptions[0],
 				},
 				Phases: append([]fw.Phase{
 					{Name: "semantics", Cases: c16SemCount(), Chunk: 24, Exhaust: true, TimeoutS: 600},
@@ -2714,11 +2714,11 @@ func init() {
 					{Name: "stepped", Cases: nStep, Chunk: 12, Jobs: 4, MemMB: 3072, TimeoutS: 900},
 					{Name: "churn", Cases: nChurn, Chunk: 3, TimeoutS: 900},
 					{Name: "gofunc", Cases: nGoFunc, Chunk: 8, TimeoutS: 900},
-				}, c16R8Phases(tier)...),
+				}, append(c16R8Phases(tier), c16R9Phases(tier)...)...),
 			}
 		},
 		Run: func(c *wk.Case) {
-			if c16R8Run(c) {
+			if c16R8Run(c) || c16R9Run(c) {
 				return
 			}
 			if c.Phase == "semantics" {
